@@ -176,3 +176,137 @@ def fix_ir(ir):
             return tuple(t(y) for y in x)
         return x
     return {"members": ir["members"], "enc": [(i, t(s)) for i, s in ir["enc"]], "dec": [(i, t(s)) for i, s in ir["dec"]]}
+
+
+# ----------------------------------------------------------------------------------------
+# C13 / C14: determinism and independence of generators
+# ----------------------------------------------------------------------------------------
+ALL_LANGS = ["lua", "rust", "go", "java", "python", "cpp"]      # the CLI's generator order
+
+
+def det_programs(tier, seed):
+    import corpus
+    progs = corpus.layout_programs()
+    progs += corpus.random_programs(seed + 101, 10 if tier == "quick" else 120)
+    progs += corpus.finding_programs()
+    progs += corpus.cell_programs(corpus.pairwise_configs()[:2 if tier == "quick" else 12])
+    # one-line layouts: several declarations share a source line
+    extra = []
+    for pid, text in progs[:8] + corpus.finding_programs():
+        extra.append((pid + "-1line", " ".join(text.split())))
+    return progs + extra
+
+
+def sites_obligation(res, pid):
+    import sites
+    tab, changed = sites.regenerate()
+    if changed:
+        # the table is part of the development: rebuild before the property file is checked
+        ok, out = core.coq_make()
+    res.coverage["site_tables"] = {"map_ranges": [(s["func"], s["kind"]) for s in tab["map_ranges"]],
+                                   "model_mutations": [(s["func"], s["kind"], s["text"]) for s in tab["model_mutations"]],
+                                   "regenerated_from_source": True}
+    return tab
+
+
+@handler("C13")
+def determinism_check(res, known, args):
+    tab = sites_obligation(res, "C13")
+    hook = core.Hook()
+    runs = 6 if res.tier == "quick" else 40
+    progs = det_programs(res.tier, res.seed)
+    n = differing = compiled = 0
+    distinct_orders = 0
+    samples_out = []
+    for pid, text in progs:
+        first = None
+        ok = True
+        for k in range(runs):
+            resp = hook.ask({"op": "gen", "text": text, "langs": ALL_LANGS})
+            if resp.get("fatal") or resp.get("syntax_error") or resp.get("rejected") or resp.get("cyclic") or "steps" not in resp:
+                ok = False
+                break
+            out = {s["lang"]: s.get("files", {"<panic>": s.get("panic", "")}) for s in resp["steps"]}
+            if first is None:
+                first = out
+            elif out != first:
+                differing += 1
+                lang = next(l for l in out if out[l] != first[l])
+                fname = next((f for f in out[lang] if out[lang].get(f) != first[lang].get(f)), "(file set)")
+                res.violation({"kind": "nondeterminism", "what": "compiling the same DSL twice gave different %s output (file %s)" % (lang, fname),
+                               "dsl": text, "lang": lang, "file": fname, "run_a": first[lang].get(fname), "run_b": out[lang].get(fname),
+                               "runs": k + 1}, found=True)
+                break
+        if ok:
+            compiled += 1
+            n += runs
+            if len(samples_out) < 2:
+                samples_out.append({"program": pid, "runs": runs, "files": sum(len(v) for v in first.values()), "identical": True})
+    hook.close()
+    bad_sites = [s for s in tab["map_ranges"] if not (s["kind"] in ("keyed-insert", "collect-then-sort") or (s["kind"] == "effects" and s["func"] == "WriteCodeToFile"))]
+    for s in bad_sites:
+        res.violation({"kind": "proof-obligation", "what": "a map iteration whose body has order-dependent effects: %s in %s (%s:%d); theorem C13_every_map_range_is_order_independent no longer checks"
+                       % (s["text"], s["func"], s["file"], s["line"]), "theorem": "C13_every_map_range_is_order_independent", "site": s}, found=False)
+    res.coverage.update({"programs": compiled, "evaluations": n, "distinct_nontrivial": compiled,
+                         "rule": "each program is compiled %d times by all six generators in one process (Go randomises map iteration per range statement); outputs compared byte for byte; programs: decision cells, finding cells, random compositions, one-line layouts" % runs,
+                         "samples": samples_out, "differing": differing})
+    res.assumptions += ["the clock (C++ copyright year) is constant during a run", "file-name collisions after ToSnake (two packets whose names collide) are outside the corpus"]
+
+
+@handler("C14")
+def independence_check(res, known, args):
+    import itertools
+    import random
+    tab = sites_obligation(res, "C14")
+    for s in tab["model_mutations"]:
+        res.violation({"kind": "proof-obligation", "what": "a generator statement writes memory of the parsed model: %s (%s) in %s, %s:%d; theorem C14_no_generator_statement_writes_the_model no longer checks"
+                       % (s["text"], s["kind"], s["func"], s["file"], s["line"]), "theorem": "C14_no_generator_statement_writes_the_model", "site": s}, found=False)
+    hook = core.Hook()
+    rng = random.Random(res.seed)
+    progs = det_programs(res.tier, res.seed)
+    if res.tier == "quick":
+        progs = progs[:40]
+    seqs_per_prog = 6 if res.tier == "quick" else 30
+    n = compiled = 0
+    samples_out = []
+    found = 0
+    for pid, text in progs:
+        alone = {}
+        usable = True
+        for lang in ALL_LANGS:
+            resp = hook.ask({"op": "gen", "text": text, "langs": [lang]})
+            if "steps" not in resp:
+                usable = False
+                break
+            st = resp["steps"][0]
+            alone[lang] = st.get("files", {"<panic>": st.get("panic", "")})
+            if not st.get("model_unchanged", True) and found < 3:
+                found += 1
+                res.violation({"kind": "model-mutated", "what": "the %s generator alters the parsed model" % lang, "dsl": text, "lang": lang,
+                               "sequence": [lang]}, found=True)
+        if not usable:
+            continue
+        compiled += 1
+        seqs = [ALL_LANGS, list(reversed(ALL_LANGS))]
+        for _ in range(seqs_per_prog - 2):
+            k = rng.randint(2, 6)
+            seqs.append(rng.sample(ALL_LANGS, k))
+        for seq in seqs:
+            resp = hook.ask({"op": "gen", "text": text, "langs": seq})
+            if "steps" not in resp:
+                continue
+            n += 1
+            for lang, st in zip(seq, resp["steps"]):
+                files = st.get("files", {"<panic>": st.get("panic", "")})
+                if files != alone[lang] and found < 3:
+                    found += 1
+                    fname = next((f for f in files if files.get(f) != alone[lang].get(f)), "(file set)")
+                    res.violation({"kind": "interference", "what": "the %s output depends on the generators that ran before it (file %s)" % (lang, fname),
+                                   "dsl": text, "lang": lang, "sequence": seq, "file": fname,
+                                   "alone": alone[lang].get(fname), "in_sequence": files.get(fname)}, found=True)
+        if len(samples_out) < 2:
+            samples_out.append({"program": pid, "sequences": [" ".join(s) for s in seqs[:3]], "all_equal_to_alone": True})
+    hook.close()
+    res.coverage.update({"programs": compiled, "evaluations": n, "distinct_nontrivial": n,
+                         "rule": "per program: every generator alone on a fresh parse, then sequences over ONE parsed model (CLI order, reverse, random orders/subsets); each step's files compared with the alone run and the model dump compared before/after each step",
+                         "samples": samples_out})
